@@ -318,6 +318,10 @@ def _call_ext(it, name, args, kwargs, node):
     from .interp import RaiseEx
 
     n = name
+    if n == "functools.partial" and args:
+        from .values import VPartial
+
+        return VPartial(args[0], args[1:], kwargs)
     if n.startswith("numpy."):
         return call_numpy(it, n[6:], args, kwargs, node)
     if n.startswith("builtins."):
@@ -325,7 +329,7 @@ def _call_ext(it, name, args, kwargs, node):
     if n.startswith("torch.nn.functional."):
         f = n.rsplit(".", 1)[1]
         if f == "linear":
-            x, W = args[0], args[1]
+            x, W = ext_arg(args, kwargs, 0, "input"), ext_arg(args, kwargs, 1, "weight")
             b = ext_arg(args, kwargs, 2, "bias")
             Wt = tensor_method(it, W, "t", [], {}, node) if isinstance(W, VTens) else W
             r = torch_matmul(it, [x, Wt], {}, node)
@@ -1014,6 +1018,16 @@ def call_builtin(it, f, args, kwargs, node):
         return VUnknown(f, f)
     if f == "bool":
         t = it.truth(args[0]) if args else False
+        if t is None and args:
+            a0 = args[0]
+            if isinstance(a0, VNum) and a0.term is not None:
+                return a0 if a0.kind == "bool" else VNum("bool", T.app("cmp_NotEq", a0.term, T.ZERO))
+            if isinstance(a0, VTens) and a0.term is not None and a0.shape is not None and all(d == 1 for d in a0.shape):
+                at = a0.term.single_atom()
+                # bool(t) of a one-element tensor: a symbolic boolean when t is itself a truth value (any / all / comparison), t != 0 otherwise
+                if isinstance(at, T.App) and at.op in ("any", "all", "tensor_equal", "lnot"):
+                    return VNum("bool", a0.term)
+                return VNum("bool", T.app("cmp_NotEq", a0.term, T.ZERO))
         return VConst(t) if t is not None else VUnknown("bool", "bool")
     if f == "str" or f == "repr" or f == "format":
         if args and isinstance(args[0], VConst):
